@@ -83,6 +83,8 @@ pub fn candidates(seed: u64) -> Vec<Value> {
         // unsatisfiable formulas (by propagation, by search), an empty clause, tautological and repeated literals
         json!([[1], [-1], [2, 3]]), json!([[1, 2], [1, -2], [-1, 3], [-1, -3]]), json!([[], [1, 2, 3]]), json!([[1, -1], [2, 3, 3]]),
         json!([[-1, 3], [2, 3], [-3, 1]]),
+        // unsatisfiable only by search while unit clauses imply literals at the start
+        json!([[1], [2, 3], [2, -3], [-2, 3], [-2, -3]]), json!([[-3], [1, 2], [1, -2], [-1, 2], [-1, -2]]),
     ];
     let orders = [[0, 1, 2], [0, 2, 1], [1, 0, 2], [1, 2, 0], [2, 0, 1], [2, 1, 0]];
     for cnf in cnfs.iter() {
@@ -110,6 +112,7 @@ pub fn candidates(seed: u64) -> Vec<Value> {
             let cl: Vec<i64> = (0..len).map(|_| { let v = 1 + nx(4) as i64; if nx(2) == 0 { v } else { -v } }).collect();
             cnf.push(cl);
         }
+        if nx(3) == 0 { let v = 1 + nx(4) as i64; cnf.push(vec![if nx(2) == 0 { v } else { -v }]); }
         let mut order: Vec<u64> = vec![0, 1, 2, 3];
         for i in (1..4).rev() { let j = nx(i as u64 + 1) as usize; order.swap(i, j); }
         if cnf.iter().flat_map(|c| c.iter().map(|l| l.unsigned_abs())).max().unwrap_or(0) != 4 { continue; }
@@ -124,6 +127,22 @@ pub fn candidates(seed: u64) -> Vec<Value> {
             let len = 1 + nx(3);
             let cl: Vec<i64> = (0..len).map(|_| { let v = 1 + nx(nv) as i64; if nx(2) == 0 { v } else { -v } }).collect();
             cnf.push(cl);
+        }
+        if cnf.iter().flat_map(|c| c.iter().map(|l| l.unsigned_abs())).max().unwrap_or(0) != nv { continue; }
+        let mut order: Vec<u64> = (0..nv).collect();
+        for i in (1..nv as usize).rev() { let j = nx(i as u64 + 1) as usize; order.swap(i, j); }
+        out.push(json!({"case": "dnnf_cond", "nvars": nv, "cnf": cnf, "order": order, "neg": nx(2) == 0, "lbl": nx(nv), "val": nx(2) == 0}));
+    }
+    // clauses of four literals on distinct variables, 6 variables, random orders: one decision can falsify two literals
+    // of a clause that stays open, which is where the residual hash and the watch lists are exercised hardest
+    for _ in 0..400 {
+        let nv = 6u64;
+        let ncl = 2 + nx(4);
+        let mut cnf = vec![];
+        for _ in 0..ncl {
+            let mut vs: Vec<i64> = vec![];
+            while vs.len() < 4 { let v = 1 + nx(nv) as i64; if !vs.contains(&v) { vs.push(v); } }
+            cnf.push(vs.into_iter().map(|v| if nx(2) == 0 { v } else { -v }).collect::<Vec<i64>>());
         }
         if cnf.iter().flat_map(|c| c.iter().map(|l| l.unsigned_abs())).max().unwrap_or(0) != nv { continue; }
         let mut order: Vec<u64> = (0..nv).collect();
